@@ -6,6 +6,7 @@ import (
 	"sort"
 	"strings"
 	"sync"
+	"time"
 
 	"github.com/prometheus/client_golang/prometheus"
 	dto "github.com/prometheus/client_model/go"
@@ -20,10 +21,12 @@ import (
 // Direction-B driver for the Prometheus instrumentation (C19): Prom.tla.
 
 type PromScenario struct {
-	Chain  []cat.Stage
-	Script []pipe.Notif // values then optional terminal
-	NSubs  int
-	Conc   bool // subscriptions made concurrently
+	Chain    []cat.Stage
+	Script   []pipe.Notif // values then optional terminal
+	NSubs    int
+	Conc     bool // subscriptions made concurrently
+	Feedback bool // a hand-made lock-free hot source; value i+1 is emitted from INSIDE the observer's callback for value i (feedback loop): the
+	// instrumentation must not add a lock the plain pipeline does not have (transparency)
 }
 
 var promStages = []cat.Stage{
@@ -70,6 +73,17 @@ func GenPromAt(r *rand.Rand, idx int) PromScenario {
 	}
 	for i := 0; i < m; i++ {
 		sc.Script = append(sc.Script, pipe.Notif{K: "N", V: float64([]int{-1, 0, 2, 1, 3}[r.Intn(5)])})
+	}
+	if !sweep && r.Intn(8) == 0 {
+		// feedback loop over lock-free operators only
+		sc.Feedback, sc.NSubs, sc.Conc = true, 1, false
+		pass := []cat.Stage{{Op: "Map", G: "Map"}, {Op: "Map", G: "MapWithContext", F: "C"}, {Op: "TapOnNext", G: "TapOnNext"}, {Op: "ContextWithValue", G: "ContextWithValue"}, {Op: "Filter", G: "Filter"}}
+		for i := range sc.Chain {
+			sc.Chain[i] = pass[r.Intn(len(pass))]
+		}
+		for len(sc.Script) < 3 {
+			sc.Script = append(sc.Script, pipe.Notif{K: "N", V: float64(0)})
+		}
 	}
 	switch r.Intn(4) {
 	case 0:
@@ -164,6 +178,36 @@ func RunProm(lg *rec.Log, sc PromScenario, seed int64) []rec.Ev {
 			}
 			return func() { lg.Add(rec.Ev{E: "torn", S: mode}) }
 		})
+		var hot ro.Observer[any] // feedback scenarios: the destination of the hand-made hot source
+		var hotCtx context.Context
+		if sc.Feedback {
+			src = ro.NewUnsafeObservableWithContext(func(ctx context.Context, d ro.Observer[any]) ro.Teardown {
+				hot, hotCtx = d, ctx
+				return func() { lg.Add(rec.Ev{E: "torn", S: mode}) }
+			})
+		}
+		nextIdx := 0
+		var emitNext func()
+		emitNext = func() { // emits script element nextIdx; called by the harness for the first one and from inside the observer afterwards
+			if nextIdx >= len(sc.Script) || hot == nil {
+				return
+			}
+			n := sc.Script[nextIdx]
+			i := nextIdx
+			nextIdx++
+			switch n.K {
+			case "N":
+				lg.Add(rec.Ev{E: "src", S: mode})
+				hot.NextWithContext(context.WithValue(hotCtx, rec.KeyItem, i), any(int(n.V.(float64))))
+				if i+1 < len(sc.Script) && sc.Script[i+1].K != "N" {
+					emitNext() // a value that was filtered out cannot carry the loop on: the terminal comes from the harness side
+				}
+			case "E":
+				hot.ErrorWithContext(context.WithValue(hotCtx, rec.KeyItem, -1), cat.ErrSrc[1])
+			case "C":
+				hot.CompleteWithContext(context.WithValue(hotCtx, rec.KeyItem, -1))
+			}
+		}
 		var o ro.Observable[any]
 		var coll prometheus.Collector
 		if mode == "ref" {
@@ -189,6 +233,9 @@ func RunProm(lg *rec.Log, sc PromScenario, seed int64) []rec.Ev {
 					mu.Lock()
 					local = append(local, rec.Ev{E: "obs", S: mode, K: "N", V: hashVal(v), I: hashMarkers(cat.Markers(ctx)), O: k})
 					mu.Unlock()
+					if sc.Feedback {
+						emitNext() // re-entrant emission
+					}
 				},
 				func(ctx context.Context, err error) {
 					mu.Lock()
@@ -203,6 +250,25 @@ func RunProm(lg *rec.Log, sc PromScenario, seed int64) []rec.Ev {
 			)
 			lg.Add(rec.Ev{E: "sub", S: mode})
 			sub := o.SubscribeWithContext(base, obs)
+			if sc.Feedback {
+				done := make(chan struct{})
+				go func() {
+					defer close(done)
+					for nextIdx < len(sc.Script) && hot != nil {
+						before := nextIdx
+						emitNext() // values the loop did not carry on (filtered out) are pushed from here
+						if nextIdx == before {
+							break
+						}
+					}
+				}()
+				select {
+				case <-done:
+				case <-time.After(3 * time.Second):
+					lg.Add(rec.Ev{E: "hang", S: mode}) // a re-entrant emission never returned: a lock the plain pipeline does not have
+					return
+				}
+			}
 			sub.Unsubscribe()
 			mu.Lock()
 			allMu.Lock()
